@@ -134,3 +134,24 @@ def block_len(func, blk) -> int:
         return len(resolve_block(func, blk).stmts)
     except TransformReferenceError:
         return 0
+
+
+# ----------------------------------------------------------------- nesting of paths
+
+@recursive
+def block_beneath(p, block, lo, hi) -> bool:
+    """does the block p lie under one of the statements lo <= i < hi of `block`?"""
+    return False if isinstance(p, FuncBody) else \
+        ((p.parent.parent == block and lo <= p.parent.index and p.parent.index < hi)
+         or block_beneath(p.parent.parent, block, lo, hi))
+
+
+def stmt_beneath(blk, idx, block, lo, hi):
+    """is statement (blk, idx) one of the statements lo <= i < hi of `block`, or under one?"""
+    return (blk == block and lo <= idx and idx < hi) or block_beneath(blk, block, lo, hi)
+
+
+def path_beneath(p, block, lo, hi):
+    """`beneath` for a block path or a statement path"""
+    return stmt_beneath(p.parent, p.index, block, lo, hi) if isinstance(p, StmtPath) \
+        else block_beneath(p, block, lo, hi)
